@@ -1206,3 +1206,19 @@ def big_bit(eng, st, fr, args, ins):
     if not is_sym(a):
         return (a >> i) & 1
     return z3.ZeroExt(63, z3.Extract(i, i, a))
+
+
+@intr("strconv.ParseUint")
+def strconv_parseuint(eng, st, fr, args, ins):
+    s, base, bits = args
+    if isinstance(s, SymStr) or is_sym(base) or is_sym(bits):
+        raise Unsupported("strconv.ParseUint of a symbolic string")
+    try:
+        if base != 10 or not s or not s.isdigit() or not s.isascii():
+            raise ValueError
+        v = int(s, 10)
+        if v >= 1 << (bits or 64):
+            raise ValueError
+        return (v, None)
+    except ValueError:
+        return (0, new_error(eng, st, 'strconv.ParseUint: parsing "%s": invalid syntax' % s))
